@@ -5,6 +5,8 @@ what the generic table builder produces from the default distributions: a decode
 building them from the specification's distributions agree.
 -/
 import ZstdVerif.Model.FSE
+import ZstdVerif.Lemmas.DStreamRT
+import ZstdVerif.Lemmas.TableSafe
 namespace ZstdVerif.Props.C04
 open ZstdVerif ZstdVerif.Gen
 
